@@ -232,7 +232,8 @@ func genVariant(tmpl *template.Template, pigeon, genRoot string, f pvcase.Flags)
 		return err
 	}
 	if err := checkGenerated(src, f); err != nil {
-		return err
+		// advisory only (see pvhostgen): the Go compiler decides whether the host fits the generated parser
+		fmt.Fprintf(os.Stderr, "pvconcgen: warning: %s: %v\n", f.Variant(), err)
 	}
 	var buf bytes.Buffer
 	err = tmpl.Execute(&buf, tmplData{
